@@ -66,6 +66,7 @@ FAMILY = {
     'mapped-callables': 'class-wrapped',
     'mapped-stateless': 'class-wrapped',
     'mapped-decorated': 'class-wrapped',
+    'mapped-bare': 'class-wrapped',
     'mapped-required-arg': 'class-wrapped',
 }
 
